@@ -110,6 +110,11 @@ class Corpus(object):
 
         class HmArrLim(prophy.with_metaclass(prophy.struct_generator, prophy.struct)):
             _descriptor = [('n', prophy.u8), ('x', prophy.array(prophy.u16, bound='n')), ('y', prophy.array(prophy.u8, bound='n', size=3))]
+        class HmLimNarrow(prophy.with_metaclass(prophy.struct_generator, prophy.struct)):
+            _descriptor = [('n', prophy.u8), ('x', prophy.array(prophy.u16, bound='n', size=300)), ('t', prophy.u32)]
+
+        class HmLimNarrowS(prophy.with_metaclass(prophy.struct_generator, prophy.struct)):
+            _descriptor = [('n', prophy.i8), ('x', prophy.array(prophy.u8, bound='n', size=130)), ('b', prophy.bytes(bound='n', size=200))]
         made = [
             (HmLimShared, {'k': 'struct', 'name': 'HmLimShared', 'ms': [
                 {'n': 'n', 't': u8, 'mk': 'plain'}, {'n': 'b', 't': byte, 'mk': 'limited', 'sizer': 'n', 'size': 2},
@@ -120,6 +125,12 @@ class Corpus(object):
             (HmArrLim, {'k': 'struct', 'name': 'HmArrLim', 'ms': [
                 {'n': 'n', 't': u8, 'mk': 'plain'}, {'n': 'x', 't': {'k': 'prim', 'p': 'u16'}, 'mk': 'dyn', 'sizer': 'n', 'shift': 0},
                 {'n': 'y', 't': u8, 'mk': 'limited', 'sizer': 'n', 'size': 3}]}),
+            (HmLimNarrow, {'k': 'struct', 'name': 'HmLimNarrow', 'ms': [
+                {'n': 'n', 't': u8, 'mk': 'plain'}, {'n': 'x', 't': {'k': 'prim', 'p': 'u16'}, 'mk': 'limited', 'sizer': 'n', 'size': 300},
+                {'n': 't', 't': {'k': 'prim', 'p': 'u32'}, 'mk': 'plain'}]}),
+            (HmLimNarrowS, {'k': 'struct', 'name': 'HmLimNarrowS', 'ms': [
+                {'n': 'n', 't': {'k': 'prim', 'p': 'i8'}, 'mk': 'plain'}, {'n': 'x', 't': u8, 'mk': 'limited', 'sizer': 'n', 'size': 130},
+                {'n': 'b', 't': byte, 'mk': 'limited', 'sizer': 'n', 'size': 200}]}),
         ]
         import types as _types
         self.mods[-1] = _types.SimpleNamespace(**{cls.__name__: cls for cls, _ in made})
